@@ -546,7 +546,20 @@ func evalResult(r condition.EvaluationResult, err error) string {
 	return "met:" + b + ",miss:[" + strings.Join(ms, ",") + "]"
 }
 
+// exec runs one case under a deadline: a conversion that does not come back (see F14) must not hang the run;
+// the goroutine is abandoned and the verdict is TIMEOUT.
 func exec(line string, st *hx.Stats) string {
+	done := make(chan string, 1)
+	go func() { done <- guard(func() string { return execCase(line, st) }) }()
+	select {
+	case res := <-done:
+		return res
+	case <-time.After(8 * time.Second):
+		return "TIMEOUT"
+	}
+}
+
+func execCase(line string, st *hx.Stats) string {
 	f := strings.Fields(line)
 	switch f[0] {
 	case "conv", "convraw":
